@@ -139,8 +139,16 @@ func New(nhosts int) *Sim {
 			if err != nil {
 				return
 			}
-			atomic.AddInt64(&s.canaryN, 1)
-			conn.Close()
+			// a TLS ClientHello aimed at this port is not a plaintext request; anything else is
+			go func(conn net.Conn) {
+				defer conn.Close()
+				conn.SetReadDeadline(time.Now().Add(2 * time.Second))
+				buf := make([]byte, 16)
+				n, _ := conn.Read(buf)
+				if n > 0 && buf[0] != 0x16 {
+					atomic.AddInt64(&s.canaryN, 1)
+				}
+			}(conn)
 		}
 	}()
 	// an authority on which nothing listens
